@@ -60,7 +60,7 @@ Definition NOT_STARTED : Z := 100.
 Definition SUCCEEDED : Z := 200.
 Definition FAILED : Z := 300.
 Record kc := { k_cur : Z; k_next : Z; k_done : bool }.
-Inductive kop := KStart | KProgress | KFail | KOutcome (repeat_chain : bool).
+Inductive kop := KStart | KProgress | KFail | KOutcome (repeat_chain : bool) | KReturn (succeeded repeat_stages : bool).
 
 (* last: the final stage of the chain (PAYLOAD = 6 for TAP001, EXPLOIT = 5 for TAP003) *)
 Definition k_step (last : Z) (s : kc) (o : kop) : kc :=
@@ -77,6 +77,9 @@ Definition k_step (last : Z) (s : kc) (o : kop) : kc :=
         else if rep then {| k_cur := NOT_STARTED; k_next := 1; k_done := false |}
         else {| k_cur := k_cur s; k_next := k_next s; k_done := true |}
       else s
+  (* _tap_return_handler: the response to the agent's previous request; anything but "success" (failure, unreachable,
+     pending) fails the chain unless stages are repeated, in which case the stage is held *)
+  | KReturn ok rs => if ok || rs then s else {| k_cur := FAILED; k_next := k_next s; k_done := k_done s |}
   end.
 
 (* ---- drivers -------------------------------------------------------------------------------------------------------------- *)
